@@ -8,11 +8,20 @@
 // per task and per Schedule call ("epoch") the scheduledFor values are exactly the successive Schedule.Next()
 // values after LastScheduled, each only once it has come due, never two runs of one task at a time, no run
 // starts after Release(id) returned; at quiescent points When() = earliest pending due time and every due run
-// whose worker is idle has started.  Busy-waiting and deadlocks are reported by the baton scheduler.
+// whose worker is idle has started.  Busy-waiting and deadlocks are reported by the baton scheduler; the harness
+// only names the kind of spin (class "busy-wait:<kind>") from the model's state at that moment.
+//
+// Configurations (cfg string): fast = executor durations 0; calm = a task due every second is always scheduled
+// and operations on a task whose pending run is already due are skipped (keeps the known spins H4 out of the
+// way of the other oracles); neither = everything, including slow executors.
 //
 // Mode C25 (cfg c25): create (active/inactive) / update (status, schedule) / delete / restart histories through
 // middleware.CoordinatingTaskService; the tasks that execute must be exactly the existing active ones, each on the
-// schedule coordinator.NewSchedulableTask derives from its latest stored version.
+// schedule coordinator.NewSchedulableTask derives from the task version the coordinator was given last.
+//
+// The main goroutine lives on instants x.xx5 s (all its sleeps are multiples of 10 ms after an initial 5 ms), due
+// times on multiples of 100 ms: when the main goroutine has just slept, every other goroutine is blocked and no
+// timer of the scheduler fires at that instant ("quiescent point").
 package sched
 
 import (
@@ -145,29 +154,29 @@ type mtask struct {
 }
 
 type world struct {
-	r        *hx.Run
-	pfx      string
-	c25      bool
-	calm     bool
-	workers  int
-	sch      *scheduler.TreeScheduler
-	byID     map[scheduler.ID]*mtask
-	order    []*mtask // sorted by slot (sentinel first)
-	busy     []int
-	lastEnd  []time.Time
-	dead     atomic.Bool
-	abortCh  chan struct{}
-	mainDone chan struct{}
-	execs    int
-	onErrs   int
-	finalOn  bool
-	idBase   int
-	lastRm   string // what the last operation that removed/postponed the earliest pending run was
-	stopped  bool
-	stopping bool // Stop has been invoked on w.sch
-	whenSeen map[string]bool
+	r                   *hx.Run
+	pfx                 string
+	c25                 bool
+	calm                bool
+	workers             int
+	sch                 *scheduler.TreeScheduler
+	byID                map[scheduler.ID]*mtask
+	order               []*mtask // sorted by slot (sentinel first)
+	busy                []int
+	lastEnd             []time.Time
+	dead                atomic.Bool
+	abortCh             chan struct{}
+	mainDone            chan struct{}
+	execs               int
+	onErrs              int
+	finalOn             bool
+	idBase              int
+	lastRm              string // what the last operation that removed/postponed the earliest pending run was
+	stopped             bool
+	stopping            bool // Stop has been invoked on w.sch
+	whenSeen            map[string]bool
 	failKind, failState string
-	failAt   time.Time
+	failAt              time.Time
 	// C25
 	svc   *memSvc
 	coord *coordinator.Coordinator
@@ -210,16 +219,16 @@ func ts(t time.Time) string {
 // ---- Schedulable handed to the scheduler in C24 mode
 
 type schedulable struct {
-	id     scheduler.ID
-	sched  scheduler.Schedule
-	off    time.Duration
-	last   time.Time
+	id    scheduler.ID
+	sched scheduler.Schedule
+	off   time.Duration
+	last  time.Time
 }
 
-func (s schedulable) ID() scheduler.ID            { return s.id }
+func (s schedulable) ID() scheduler.ID             { return s.id }
 func (s schedulable) Schedule() scheduler.Schedule { return s.sched }
-func (s schedulable) Offset() time.Duration       { return s.off }
-func (s schedulable) LastScheduled() time.Time    { return s.last }
+func (s schedulable) Offset() time.Duration        { return s.off }
+func (s schedulable) LastScheduled() time.Time     { return s.last }
 
 // ---- model transitions
 
@@ -507,9 +516,11 @@ func (w *world) newScheduler(ck scheduler.SchedulableService) bool {
 // hookFail makes every harness goroutine notice a stopped simulation.
 func (w *world) hookFail() {
 	prev := w.r.Sim.OnFail
-	// a goroutine that really waits for something is never alone for thousands of steps: with another
-	// runnable goroutine the baton changes hands at least every 256 steps on average
-	w.r.Sim.SpinLimit = 6000
+	// Below the framework's default (30000) to make spinning runs cheaper, but high enough that a goroutine which
+	// polls another *runnable* goroutine is practically never mistaken for a spin (the baton changes hands with
+	// probability >= 1/256 per step), and that the main goroutine is practically never still waiting for the
+	// scheduler's lock when the simulation is stopped (simrt cannot release such a goroutine, see report).
+	w.r.Sim.SpinLimit = 20000
 	w.r.Sim.OnFail = func() {
 		w.dead.Store(true)
 		// the state at the moment the simulation stopped (afterwards the goroutines drain natively)
